@@ -1692,6 +1692,45 @@ class Prog:
                 return v
         return None
 
+    def adopt(self, like, dav, tag="adopt"):
+        """Register collection `dav` as a new variable denoting the same array as `like`
+        (a persisted / optimized / unpickled copy): follow-on ops can then be generated on it."""
+        v = Var(len(self.vars), like.np, dav, inx=like.inx, mag=like.mag, flags=like.flags, depth=like.depth, eps=like.eps)
+        self.vars.append(v)
+        self.steps.append({"op": "from_array", "in": [], "p": {"adopted": tag, "like": like.id}})
+        return v
+
+    def step_on(self, var, opname=None, tries=20, unary_only=False):
+        """Append one random step whose first input is `var`. Returns the new Var or None."""
+        for _ in range(tries):
+            name = opname or self.rng.choices(self.opnames, self.opweights)[0]
+            op = OPS[name]
+            if op.arity == 0 or (unary_only and op.arity != 1):
+                continue
+            ins = [var]
+            ok = True
+            for j in range(1, op.arity):
+                partner = self.add_leaf_like(var) if self.rng.random() < 0.7 else None
+                if partner is None:
+                    cands = self.pick(1)
+                    partner = cands[0] if cands else None
+                if partner is None:
+                    ok = False
+                    break
+                ins.append(partner)
+            if not ok:
+                continue
+            if op.arity >= 2 and self.rng.random() < 0.3:
+                ins[0], ins[1] = ins[1], ins[0]
+            try:
+                p = op.gen(self, ins)
+            except Skip:
+                continue
+            v = self.apply(name, [x.id for x in ins], p)
+            if v is not None:
+                return v
+        return None
+
     def grow(self, nsteps, nleaves=None):
         nleaves = nleaves or self.rng.choice([1, 1, 2, 2, 3])
         for _ in range(nleaves):
@@ -1737,6 +1776,21 @@ class Prog:
         order = sorted(needed)
         remap = {old: new for new, old in enumerate(order)}
         return [{"op": self.steps[i]["op"], "in": [remap[j] for j in self.steps[i]["in"]], "p": self.steps[i]["p"]} for i in order]
+
+    def closure_multi(self, var_ids):
+        """Steps needed for several variables, renumbered. Returns (steps, {old id: new id})."""
+        needed = set()
+        stack = list(var_ids)
+        while stack:
+            i = stack.pop()
+            if i in needed:
+                continue
+            needed.add(i)
+            stack.extend(self.steps[i]["in"])
+        order = sorted(needed)
+        remap = {old: new for new, old in enumerate(order)}
+        steps = [{"op": self.steps[i]["op"], "in": [remap[j] for j in self.steps[i]["in"]], "p": self.steps[i]["p"]} for i in order]
+        return steps, remap
 
     def signature(self, var_id):
         """Op-sequence signature of the sub-program (for distinctness counting)."""
